@@ -88,10 +88,41 @@ def fwd1(ctx, prog, cfg):
                   "the forwarding equality impl does not end in the base slice comparison (%s): %s" %
                   (why, "the chain returns to an impl already on it — unconditional recursion" if "tgt" in dir() and tgt in (chain if "chain" in dir() else []) else "comparison with slices/arrays/references no longer agrees with buffer equality"),
                   why, cfg)
-        shapes.must_match(ctx, "FWD1", prog, short,
-                          ([r"call <\[T; N\] as core::ops::index::Index<I>>::index\(other, RangeFull::RangeFull\{\}\)"] if "[U; M]>>" in short and "&" not in short.split("PartialEq<")[1] else [])
-                          + [r"call <&A as core::cmp::PartialEq<&(mut )?B>>::eq\(%s\)" % argpat, r"return <&A as PartialEq<&(mut )?B>>::eq\(%s\)" % argpat], cfg,
-                          "self == (*)other", "the forwarder compares something other than `self` with its parameter")
+        # the one comparison is `self` against the parameter: both operands are the function's own parameters,
+        # reached through reference/dereference/unsizing/full-range indexing only, and its result is returned as is
+        okp, whyp = len(calls) == 1, "%d comparison calls" % len(calls)
+        if okp:
+            b0 = calls[0][0]
+            a = [_passthrough_root(f.deep_simplify(x)) for x in f.call_args(b0)]
+            okp = a == [("param", 1), ("param", 2)]
+            whyp = "operands are %s" % ", ".join(mir.fmt(x, f) for x in a)
+            if okp:
+                rets = f.return_blocks()
+                r = [mir.strip_casts(f.deep_simplify(f.return_expr(rb))) for rb in rets]
+                okp = len(r) == 1 and isinstance(r[0], tuple) and r[0][0] == "call" and r[0][3] == b0
+                whyp = "returns the comparison of self with other" if okp else "the comparison's result is not what is returned"
+        ctx.check(okp, "FWD1", short, "self == (*)other", f.loc,
+                  "the forwarder compares something other than `self` with its parameter, or does not return that comparison (%s)" % whyp, whyp, cfg)
+
+
+def _passthrough_root(e):
+    """strip what only re-addresses a value: &, *, unsizing, `[..]`"""
+    while True:
+        e = mir.strip_casts(e)
+        if not isinstance(e, tuple) or not e:
+            return e
+        if e[0] == "ref" and isinstance(e[1], tuple) and e[1][0] == "local" and len(e[1]) > 2:
+            e = e[1][2]
+        elif e[0] == "ref" and isinstance(e[1], tuple) and e[1][0] == "place" and not e[1][2]:
+            e = e[1][1]
+        elif e[0] == "load" and not e[2]:
+            e = e[1]
+        elif e[0] == "unsize":
+            e = e[1]
+        elif e[0] == "call" and isinstance(e[1], str) and "Index<I>>::index" in e[1] and len(e[2]) == 2 and isinstance(e[2][1], tuple) and e[2][1][:1] == ("agg",) and e[2][1][2] == "RangeFull":
+            e = e[2][0]
+        else:
+            return e
 
 
 def obs1(ctx, prog, cfg):
@@ -139,12 +170,57 @@ def ord_hash_dbg(ctx, prog, cfg):
                                      r"return Iterator::%s\(CircularBuffer::iter\(self\), CircularBuffer::iter\(other\)\)" % callee], cfg,
            "self.iter().%s(other.iter())" % callee, "`%s` is not std's lexicographic comparison of the two element sequences (self on the left)" % name)
     hash1(ctx, prog, cfg)
-    mm(ctx, "DBG1", prog, "<CircularBuffer<N, T> as Debug>::fmt", [r"return DebugList::finish\(DebugList::entries\(&\{Formatter::debug_list\(f\)\}, self\)\)"], cfg,
-       "debug_list().entries(self).finish()", "Debug::fmt is not `f.debug_list().entries(self).finish()`, the callee sequence of core's `impl Debug for [T]`")
+    dbg1(ctx, prog, cfg)
+
+
+DBG_FN = "<CircularBuffer<N, T> as Debug>::fmt"
+
+
+def dbg1(ctx, prog, cfg, rule="DBG1"):
+    """Debug::fmt is core's list formatting over the elements in order: the returned value is
+    `finish()` of a chain of `entries(..)` on the one `f.debug_list()`, fed with the whole sequence — `self`,
+    `self.iter()`, or the two `as_slices()` pieces first-then-second — and the formatter is used for nothing else."""
+    f = ctx.need_fn(prog, DBG_FN, rule)
+    if f is None:
+        return
+    why = []
+    allowed = ("core::fmt::Formatter::debug_list", "core::fmt::builders::DebugList::entries", "core::fmt::builders::DebugList::finish",
+               "circular_buffer::CircularBuffer::as_slices", "circular_buffer::CircularBuffer::iter")
+    for b, t in f.calls(False):
+        p = mir.callee_path(t)
+        if p not in allowed and not (p or "").endswith("IntoIterator>::into_iter"):
+            why.append("calls `%s`" % p)
+    rets = f.return_blocks()
+    fed = []
+    if len(rets) != 1:
+        why.append("%d return sites" % len(rets))
+    else:
+        e = mir.strip_casts(f.deep_simplify(f.return_expr(rets[0])))
+        if not (isinstance(e, tuple) and e[:2] == ("call", "DebugList::finish")):
+            why.append("does not return DebugList::finish(..)")
+        else:
+            x = mir.strip_casts(e[2][0])
+            while isinstance(x, tuple) and x[:2] == ("call", "DebugList::entries"):
+                fed.insert(0, mir.strip_casts(x[2][1]))
+                x = mir.strip_casts(x[2][0])
+            root = _passthrough_root(x)
+            if not (isinstance(root, tuple) and root[:2] == ("call", "Formatter::debug_list") and mir.strip_casts(root[2][0]) == ("param", 2)):
+                why.append("the entries are not added to `f.debug_list()`")
+    sl = ("call", "CircularBuffer::as_slices", (("param", 1),))
+    def is_piece(x, k):
+        return isinstance(x, tuple) and x[0] == "field" and x[2] == k and isinstance(x[1], tuple) and x[1][:3] == sl
+    whole = len(fed) == 1 and (_passthrough_root(fed[0]) == ("param", 1) or (isinstance(fed[0], tuple) and fed[0][:3] == ("call", "CircularBuffer::iter", (("param", 1),))))
+    pieces = len(fed) == 2 and is_piece(fed[0], "0") and is_piece(fed[1], "1")
+    if not why and not (whole or pieces):
+        why.append("entries are fed %s, not the whole sequence in order" % [mir.fmt(x, f)[:60] for x in fed])
+    ctx.check(not why, rule, DBG_FN, "debug_list().entries(<all elements in order>).finish()", f.loc,
+              "Debug::fmt is not core's list formatting of the elements in order (%s): output, flags such as `{:#?}` or the element order "
+              "can differ from the equivalent slice's" % "; ".join(why),
+              "finish(entries(debug_list(f), %s))" % ("self" if whole else "as_slices().0 then .1"), cfg)
 
 
 def base1(ctx, prog, cfg):
-    for short, first_guard in ((BASE_SLICE, r"guard Ne\((\(\*self\)\.size, <\[T\]>::len\(other\)|<\[T\]>::len\(other\), \(\*self\)\.size)\)"), (BASE_BUF, r"guard Ne\(\(\*other\)\.size, \(\*self\)\.size\)")):
+    for short, first_guard in ((BASE_SLICE, r"guard Eq\((\(\*self\)\.size, <\[T\]>::len\(other\)|<\[T\]>::len\(other\), \(\*self\)\.size)\)"), (BASE_BUF, r"guard Eq\(\(\*other\)\.size, \(\*self\)\.size\)")):
         f = ctx.need_fn(prog, short, "BASE1")
         if f is None:
             continue
@@ -155,6 +231,24 @@ def base1(ctx, prog, cfg):
         ctx.check(bool(guards_) and re.fullmatch(first_guard, guards_[0]) is not None, "BASE1", short, "length test first", f.loc,
                   "the first decision of `%s` is `%s`, not the comparison of the two lengths" % (short, guards_[0] if guards_ else "none"),
                   "first guard: len(self) != len(other)", cfg)
+        # ... and when the lengths differ the answer is `false`, with no element comparison
+        from .. import skeleton as _sk
+
+        order, _ = _sk.canonical_order(f)
+        first = next((b for b in order if _sk.positive_branches(f, b) is not None), None)
+        okf, whyf = first is not None, "no two-way test"
+        if okf:
+            pd, tb, fb_ = _sk.positive_branches(f, first)
+            region = {fb_} | f.reachable_from(fb_, False)
+            cmp_there = [b for b in region if f.term(b)["k"] == "call" and "PartialEq" in (mir.callee_path(f.term(b)) or "")]
+            cmp_true = [b for b in ({tb} | f.reachable_from(tb, False)) if f.term(b)["k"] == "call" and "PartialEq" in (mir.callee_path(f.term(b)) or "")]
+            rets = [mir.strip_casts(f.rvalue_expr(st["rv"], b, i)) for b in region - ({tb} | f.reachable_from(tb, False)) for i, st in enumerate(f.blocks[b]["stmts"])
+                    if st["k"] == "assign" and st["place"]["local"] == 0 and not st["place"]["proj"]]
+            okf = pd[1] == "Eq" and not [b for b in cmp_there if b not in cmp_true] and rets and all(r == ("int", 0) for r in rets) and bool(cmp_true)
+            whyf = "unequal lengths -> false without comparing; equal lengths -> element comparison" if okf else \
+                "on the unequal-lengths branch the function %s" % ("compares elements" if [b for b in cmp_there if b not in cmp_true] else "does not return `false` (%s)" % [mir.fmt(r, f) for r in rets])
+        ctx.check(okf, "BASE1", short, "unequal lengths answer false", f.loc,
+                  "`%s`: %s" % (short, whyf), whyf, cfg)
         n = 0
         for b, t in f.calls(False):
             p = mir.callee_path(t) or ""
